@@ -46,11 +46,34 @@ impl<'a> Surface<'a> {
             _ => {}
         }
     }
+    /// an element the schema does not know at this place, with an arbitrary subtree: descendants may carry the same name
+    /// as the element itself or the name of a schema element, attributes, text, comments; readers skip it as a whole
     fn unknown(&mut self) {
-        if self.vary && self.rng.chance(1, 5) {
-            let s = *self.rng.pick(&["<Unknown/>", "<X><Y>text</Y><Z/></X>", "<Future a=\"1\">v</Future>", "<PreviousParentGroup>AAAAAAAAAAAAAAAAAAAAAA==</PreviousParentGroup>"]);
-            self.out.push_str(s);
+        if self.vary && self.rng.chance(1, 4) {
+            let name = *self.rng.pick(&["Unknown", "X", "Future", "PluginTree", "PreviousParentGroup"]);
+            let t = self.unknown_tree(name, 0);
+            self.out.push_str(&t);
         }
+    }
+    fn unknown_tree(&mut self, name: &str, depth: usize) -> String {
+        let attrs = match self.rng.below(4) { 0 => " a=\"1\"".to_string(), 1 => " Protected=\"True\" b=\"x &amp; y\"".to_string(), _ => String::new() };
+        if depth >= 3 || self.rng.chance(1, 3) {
+            return match self.rng.below(3) {
+                0 => format!("<{}{}/>", name, attrs),
+                1 => format!("<{}{}></{}>", name, attrs, name),
+                _ => format!("<{}{}>{}</{}>", name, attrs, self.rng.pick(&["text", "AAAAAAAAAAAAAAAAAAAAAA==", " ", "&lt;x&gt;"]), name),
+            };
+        }
+        let mut inner = String::new();
+        for _ in 0..self.rng.range(1, 3) {
+            // same name as the element itself, a schema name, or another unknown name
+            let child = if self.rng.chance(1, 3) { name.to_string() } else { self.rng.pick(&["Group", "Entry", "String", "Value", "Times", "UUID", "History", "Y", "Z"]).to_string() };
+            inner.push_str(&self.unknown_tree(&child, depth + 1));
+            if self.rng.chance(1, 4) {
+                inner.push_str("<!-- c -->");
+            }
+        }
+        format!("<{}{}>{}</{}>", name, attrs, inner, name)
     }
     fn open(&mut self, name: &str) {
         self.noise();
